@@ -86,6 +86,28 @@ def tree_tokens(exprs):
     return tuple(out)
 
 
+def tree_struct(exprs):
+    """Full structure of a ddsmt node list: every leaf verbatim (comments and
+    empty leaves included).  Two inputs are the same input for the purpose of
+    loop detection iff their structures are equal (as ddSMT's own
+    NodeLoopChecker compares them)."""
+    out = []
+    st = [exprs] if hasattr(exprs, 'data') else list(reversed(exprs))
+    while st:
+        e = st.pop()
+        if e is None:
+            out.append(')')
+            continue
+        d = e.data
+        if isinstance(d, str):
+            out.append('L' + d)
+        else:
+            out.append('(')
+            st.append(None)
+            st.extend(reversed(d))
+    return tuple(out)
+
+
 def balanced(tokens):
     depth = 0
     for t in tokens:
